@@ -33,3 +33,23 @@ pub use embedded_cli_macros::{Command, CommandGroup};
 pub mod __private;
 
 //TODO: organize pub uses better
+
+#[cfg(funbiscuit_embedded_cli_rs_verif)]
+#[doc(hidden)]
+pub mod __verif {
+    //! Verification hooks: re-exports of private items, no logic.
+    pub use crate::editor::Editor;
+    #[cfg(feature = "history")]
+    pub use crate::history::History;
+    pub use crate::input::{ControlInput, Input, InputGenerator};
+    pub use crate::token::{Tokens, TokensIter};
+    pub use crate::utf8::Utf8Accum;
+    pub mod utils {
+        pub use crate::utils::*;
+    }
+    pub fn raw_command_from_tokens<'a>(
+        tokens: &Tokens<'a>,
+    ) -> Option<crate::command::RawCommand<'a>> {
+        crate::command::RawCommand::from_tokens(tokens)
+    }
+}
